@@ -4,8 +4,8 @@
    guards are REGENERATED from odl/util/numerics.py into Gen/Padding.v.
    [offset_ok n n_out off]  : 0 <= off and off + min <= max (the block fits);
    [pad_legal m n n_out off]: the padding lengths the docstring allows for mode m. *)
-From Coq Require Import ZArith Reals Lia Lra List Bool.
-From Verif Require Import Base.Num Base.Vec Base.VecR Lib.Axis C16.Syntax Gen.Padding Gen.ResizeDiscr C16.Model C16.ModelNd C16.ModelOp C16.Proofs.
+From Coq Require Import ZArith QArith Qreals Reals Lia Lra List Bool.
+From Verif Require Import Base.Num Base.Vec Base.VecR Lib.Axis C16.Syntax Gen.Padding Gen.ResizeDiscr C16.Model C16.ModelNd C16.ModelOp C16.Proofs C16.Transfer.
 Import ListNotations.
 Local Open Scope R_scope.
 
@@ -103,6 +103,15 @@ Theorem offset_out_of_range_is_rejected :
   resize1 m d c cast arr n_out off = ValueErr.
 Proof. exact offset_out_of_range_rejected. Qed.
 Print Assumptions offset_out_of_range_is_rejected.
+
+(* T1 (transfer): the model executed at Q by the correspondence shards is the rational
+   restriction of the model the theorems above are about: Q2R commutes with resize1
+   (outputs and error outcomes), every mode, direction, length and offset. *)
+Theorem resize1_Q_is_restriction_of_R :
+  forall (m : pmode) (d : direction) (c : Q) (cast : bool) (arr : list Q) (n_out : nat) (off : Z),
+  omap (resize1 m d c cast arr n_out off) = resize1 m d (Q2R c) cast (map Q2R arr) n_out off.
+Proof. exact resize1_transfer. Qed.
+Print Assumptions resize1_Q_is_restriction_of_R.
 
 (* ---- N-d (flat C-order arrays).  [sep_loop m d c cast outer ishape oshape offs]
    applies the 1-d resize along axis 0, 1, ... ([Lib.Axis.along]); [sep_rev_loop]
